@@ -788,6 +788,16 @@ func (e *Engine) callStatic0(c *ast.CallExpr, fn *types.Func, sig *types.Signatu
 				}
 			}
 		}
+		if full == "(reflect.Value).IsValid" && recv != nil && len(res) == 1 && e.bound == 0 {
+			e.declareFun("rv_valid", []string{e.sortOf(recv.Typ)}, "Bool")
+			e.assume(st.pc, eq(res[0].T, sx("rv_valid", recv.T)))
+		}
+		if full == "reflect.ValueOf" && len(args) == 1 && len(res) == 1 && e.bound == 0 {
+			// the Value of an interface is valid exactly when the interface is not nil
+			e.declareFun("rv_valid", []string{e.sortOf(res[0].Typ)}, "Bool")
+			e.assume(st.pc, eq(sx("rv_valid", res[0].T), not(e.isNil(args[0]))))
+			e.stubsUsed["reflect.ValueOf: the result is the zero (invalid) Value exactly when the argument is a nil interface"] = true
+		}
 		return res
 	}
 	ct := e.contractFor(fn)
